@@ -11,6 +11,18 @@ The field types are the `FromTLV`/`ToTLV` impls of `tlv/traits/*.rs`:
 * `uN` (`primitive.rs`): `tw.uN` (shortest width, `u8` always one byte) / `element.uN()`;
   `NonZeroUN` (`Invalid` on 0), unit enums derived with `datatype = "u8"/"u16"` and the hand-written
   `FromPrimitive` enums (`Invalid` on an unknown value), `bitflags_tlv!` (`InvalidData` on unknown bits);
+* `iN` (`primitive.rs`): `tw.iN` (`i8` always one byte, `i16/i32/i64` the smallest signed width that holds
+  the value) / `element.iN()` (accepts the signed element types up to `N` bits — never an unsigned one);
+  `NonZeroIN` (`Invalid` on 0); under `Nullable` the reserved value is `iN::MIN` (`ConstraintError`);
+* `f32` / `f64`: `tw.f32/f64` (`to_le_bytes`, carried here as the bit pattern) / `element.f32()/f64()` (exactly the
+  `F32` / `F64` element type); no reserved value under `Nullable` (the trait's default `nullable_*`);
+* `bitflags_tlv!(Name, uN)` (`bitflags.rs`): `tw.uN(self.bits())` — **every** bit pattern is written, also one
+  with undefined bits (`from_bits_retain`) — / `Name::from_bits(element.uN()?)` (`InvalidData` when a bit outside
+  the declared flags is set); under `Nullable` `uN::MAX` is reserved.  `Dom.mask m` is the decoder side; the
+  encoder of the real code is the one of the schema with the masks erased (`Ty.eraseMask`, `encodeReal`);
+* `[T; N]` (`array.rs`): `to_tlv` = the slice's (TLV array of the `N` items); `from_tlv` pushes every item of
+  `TLVArray::new(element)?` into a `Vec<T, N>` (`ConstraintError` on item `N + 1`) and then **pads with
+  `T::default()`** up to `N` items;
 * `bool`; `Octets`/`OctetsOwned<N>` (`tw.str` / `element.str()`, `ConstraintError` beyond `N`);
   `&str`/`String<N>` (`tw.utf8` / `element.utf8()`);
 * `Option<T>` (`maybe.rs`): `None` writes nothing, an empty element (tag not found) reads as `None`;
@@ -46,6 +58,8 @@ mutual
 /-- a value of a `Ty` -/
 inductive Val
   | num (n : Nat) | bool (b : Bool) | bytes (b : Bytes) | obj (ss : Slots) | arr (vs : Vals)
+  /-- a signed integer (`iN`, `NonZeroIN`); `f32` / `f64` are carried as `num <bit pattern>` -/
+  | int (i : Int)
   /-- a raw `TLVElement` field, as the tree it decodes to (anonymous tag) -/
   | raw (v : Value)
   /-- the empty `TLVElement` (field not present) -/
@@ -78,6 +92,13 @@ inductive Ty
   /-- an enum with one unnamed field per variant (`datatype = "struct"`): a structure holding exactly
   the variant's payload under the variant's context tag -/
   | choice (alts : Alts)
+  /-- `iN` (`nz`: `NonZeroIN`) -/
+  | sint (w : Width) (nz : Bool)
+  /-- `f32` / `f64`, as bit patterns -/
+  | f32
+  | f64
+  /-- `[T; N]`; `dflt` = `T::default()`, what the decoder pads a shorter TLV array with -/
+  | fixarr (n : Nat) (elem : Ty) (dflt : Val)
 /-- the fields of a derived structure, in declaration order: context tag, `Option`, `Nullable`, type -/
 inductive Fields
   | nil
@@ -94,8 +115,26 @@ def Vals.length : Vals → Nat
   | .nil => 0
   | .cons _ r => r.length + 1
 
+def Vals.append : Vals → Vals → Vals
+  | .nil, ys => ys
+  | .cons v r, ys => .cons v (r.append ys)
+
+def Vals.replicate : Nat → Val → Vals
+  | 0, _ => .nil
+  | n + 1, d => .cons d (Vals.replicate n d)
+
+/-- `while !vec.is_full() { vec.push(Default::default()) }` on a `Vec<T, N>` holding `vs` -/
+def padTo (n : Nat) (d : Val) (vs : Vals) : Vals := vs.append (Vals.replicate (n - vs.length) d)
+
 /-- largest value of a `w`-byte unsigned integer (`uN::MAX`) -/
 def wmax (w : Width) : Nat := 2 ^ (8 * w.bytes) - 1
+
+/-- `iN::MIN` / `iN::MAX` of a `w`-byte signed integer -/
+def smin (w : Width) : Int := -((2 ^ (8 * w.bytes - 1) : Nat) : Int)
+def smax (w : Width) : Int := ((2 ^ (8 * w.bytes - 1) : Nat) : Int) - 1
+
+/-- the primitive `tw.i8` / `tw.i16|i32|i64` writes -/
+def sintPrim (w : Width) (i : Int) : Prim := if w = .w1 then .sint .w1 i else Prim.mkSint i
 
 /-- capacity of `OctetsOwned<N>` / `String<N>` / `Vec<T, N>` (`none`: borrowed, unbounded) -/
 def capOk (cap : Option Nat) (n : Nat) : Bool :=
@@ -186,6 +225,19 @@ def encodeVal : Bool → Ty → Tag → Val → Option Value
       | some x => some (.cont t .struct (.cons x .nil))
       | none => none
     | none => none
+  | nl, .sint w nz, t, .int i =>
+    -- `tw.iN(tag, *self)`; `Nullable`: `*self != iN::MIN`, else `ConstraintError`
+    if decide (smin w ≤ i) && decide (i ≤ smax w) && (!nz || i != 0) && (!nl || i != smin w) then
+      some (.leaf t (sintPrim w i)) else none
+  | _, .f32, t, .num b => if decide (b < 2 ^ 32) then some (.leaf t (.f32 b)) else none
+  | _, .f64, t, .num b => if decide (b < 2 ^ 64) then some (.leaf t (.f64 b)) else none
+  | _, .fixarr n el _, t, .arr vs =>
+    -- `self.as_slice().to_tlv(tag, tw)`: a Rust `[T; N]` has exactly `N` items
+    if vs.length = n then
+      match encodeElems el vs with
+      | some xs => some (.cont t .array (Values.ofList xs))
+      | none => none
+    else none
   | _, _, _, _ => none
 /-- the fields of a structure, each under its context tag -/
 def encodeFields : Fields → Slots → Option (List Value)
@@ -251,6 +303,27 @@ def readUint (w : Width) (e : Bytes) : Res Nat :=
   | .w4 => u32 e
   | .w8 => u64 e
 
+/-- `element.iN()` -/
+def readSint (w : Width) (e : Bytes) : Res Int :=
+  match w with
+  | .w1 => i8 e
+  | .w2 => i16 e
+  | .w4 => i32 e
+  | .w8 => i64 e
+
+/-- `for item in TLVArray::new(..)? { vec.push(item?).map_err(|_| ConstraintError)?; }` on a `Vec<T, N>` with
+room for `room` more items: the item is decoded first, then the push fails when the vector is full -/
+def decodeSeqCap (f : Bytes → Res Val) : Nat → List (Res Bytes) → Res Vals
+  | _, [] => pure .nil
+  | room, r :: rest => do
+    let e ← r
+    let v ← f e
+    match room with
+    | 0 => .err .invalid        -- ConstraintError
+    | room' + 1 => do
+      let vs ← decodeSeqCap f room' rest
+      pure (.cons v vs)
+
 /-- `TLVContainerIter`: every item of `seq.iter()` through `T::from_tlv`, stopping at the first error -/
 def decodeSeqWith (f : Bytes → Res Val) : List (Res Bytes) → Res Vals
   | [] => pure .nil
@@ -314,6 +387,22 @@ def decodeVal : Bool → Ty → Bytes → Res Val
       let o ← tryCtx el
       let tag ← okOr o .mismatch
       decodeAlts alts 0 tag el
+  | nl, .sint w nz, e => do
+    let i ← readSint w e
+    if nl && i == smin w then .err .invalid         -- ConstraintError
+    else if nz && i == 0 then .err .invalid         -- `NonZeroIN::new` → Invalid
+    else pure (.int i)
+  | _, .f32, e => do
+    let b ← Tlv.f32 e
+    pure (.num b)
+  | _, .f64, e => do
+    let b ← Tlv.f64 e
+    pure (.num b)
+  | _, .fixarr n el d, e => do
+    arrayNew e
+    let seq ← containerOrEmpty e
+    let vs ← decodeSeqCap (decodeVal false el) n (elements seq)
+    pure (.arr (padTo n d vs))
 /-- `match tag { #(#tags => Self::#variant(T::from_tlv(&element)?),)* _ => Err(Invalid) }` -/
 def decodeAlts : Alts → Nat → Nat → Bytes → Res Val
   | .nil, _, _, _ => .err .invalid
@@ -433,6 +522,19 @@ def fabric : Ty := .struct .struct (
   .consSkip 13 groups groupsDefault (
   .cons 14 false false (byteVec Consts.vvsLen) .nil)))))))))))))))
 
+def tI8 : Ty := .sint .w1 false
+def tI16 : Ty := .sint .w2 false
+def tI32 : Ty := .sint .w4 false
+def tI64 : Ty := .sint .w8 false
+
+/-- `dm::clusters::time_sync::DSTOffsetEntry` -/
+def dstOffsetEntry : Ty := st [r 0 tI32, r 1 tU64, o 2 tU64]
+/-- `dm::clusters::time_sync::TimeZoneOwned` (persisted time-zone entry, `String<64>` name) -/
+def timeZoneOwned : Ty := st [r 0 tI32, r 1 tU64, o 2 (.utf8 (some Consts.timeZoneNameMax))]
+/-- `dm::clusters::thread_diag::NeighborTable` (two optional `i8` RSSI values) -/
+def neighborTable : Ty := st [r 0 tU64, r 1 tU32, r 2 tU16, r 3 tU32, r 4 tU32, r 5 tU8, o 6 tI8, o 7 tI8,
+  r 8 tU8, r 9 tU8, r 10 .bool, r 11 .bool, r 12 .bool, r 13 .bool]
+
 def named : String → Option Ty
   | "AttrPath" => some attrPath
   | "CmdPath" => some cmdPath
@@ -463,6 +565,9 @@ def named : String → Option Ty
   | "Sigma2ResumeMsg" => some (st [r 1 tOct, r 2 tOct, r 3 tU16, o 4 sessionParameters])
   | "AclEntry" => some aclEntry
   | "Fabric" => some fabric
+  | "DSTOffsetEntry" => some dstOffsetEntry
+  | "TimeZoneOwned" => some timeZoneOwned
+  | "NeighborTable" => some neighborTable
   | _ => none
 
 /-! ## well-formed schemas, executable check (`Ty.wf` itself is in `Lemmas/TlvSchema.lean`) -/
@@ -482,6 +587,7 @@ def Ty.wfb : Ty → Bool
   | .struct _ fs => fs.wfb && decide fs.tags.Nodup
   | .array _ el => el.wfb
   | .choice alts => alts.wfb && decide alts.tags.Nodup
+  | .fixarr _ el _ => el.wfb
   | _ => true
 def Fields.wfb : Fields → Bool
   | .nil => true
@@ -491,6 +597,43 @@ def Alts.wfb : Alts → Bool
   | .nil => true
   | .cons tag ty rest => decide (tag < 256) && ty.wfb && rest.wfb
 end
+
+/-! ## bit flags: the real encoder does not look at the declared flags
+
+`bitflags_tlv!`: `to_tlv` = `tw.uN(tag, self.bits())`, and a flags value may hold undefined bits
+(`from_bits_retain` is a safe constructor).  `encodeVal` on `uint w (mask m)` is the encoder restricted to the
+values `from_bits` can produce (the ones the round trip is claimed for); the bytes of the real encoder on **any**
+flags value are `encodeVal` on the schema with every mask erased. -/
+
+def Dom.eraseMask : Dom → Dom
+  | .mask _ => .any
+  | d => d
+
+mutual
+def Ty.eraseMask : Ty → Ty
+  | .uint w d => .uint w d.eraseMask
+  | .bool => .bool
+  | .octets lo cap => .octets lo cap
+  | .utf8 cap => .utf8 cap
+  | .struct k fs => .struct k fs.eraseMask
+  | .array cap el => .array cap el.eraseMask
+  | .any => .any
+  | .choice alts => .choice alts.eraseMask
+  | .sint w nz => .sint w nz
+  | .f32 => .f32
+  | .f64 => .f64
+  | .fixarr n el d => .fixarr n el.eraseMask d
+def Fields.eraseMask : Fields → Fields
+  | .nil => .nil
+  | .cons tag o n ty rest => .cons tag o n ty.eraseMask rest.eraseMask
+  | .consSkip tag ty d rest => .consSkip tag ty.eraseMask d rest.eraseMask
+def Alts.eraseMask : Alts → Alts
+  | .nil => .nil
+  | .cons tag ty rest => .cons tag ty.eraseMask rest.eraseMask
+end
+
+/-- the bytes the real derived `to_tlv` writes for any value of the Rust type (flags with undefined bits included) -/
+def encodeReal (ty : Ty) (v : Val) : Option Bytes := (encodeVal false ty.eraseMask .anon v).map encode
 
 
 /-! ## the tag numbering rule of the derive macro, and declarations as data
@@ -512,10 +655,41 @@ def implicitTags : Nat → List (Option Nat) → List Nat
 inductive Mode | req | opt | nul | optNul | skip
 deriving DecidableEq, Repr, Inhabited
 
-/-- `T::default()` for the types a `Skippable` field may have in a declaration (arrays) -/
+mutual
+/-- `T::default()` for the types a `Skippable` field or a `[T; N]` item may have in a declaration:
+integers / flags 0, `false`, `+0.0`, the empty string / vector, `[T::default(); N]`, and a structure with
+`#[derive(Default)]` (every field its default: `Option` → `None`, `Nullable` → null) -/
 def defaultOf : Ty → Option Val
+  | .uint _ .any => some (.num 0)
+  | .uint _ (.mask _) => some (.num 0)
+  | .uint _ _ => none
+  | .sint _ false => some (.int 0)
+  | .sint _ true => none
+  | .bool => some (.bool false)
+  | .f32 => some (.num 0)
+  | .f64 => some (.num 0)
+  | .octets 0 _ => some (.bytes [])
+  | .octets _ _ => none
+  | .utf8 _ => some (.bytes [])
   | .array _ _ => some (.arr .nil)
-  | _ => none
+  | .fixarr n el _ => (defaultOf el).map fun d => .arr (Vals.replicate n d)
+  | .struct _ fs => (defaultFields fs).map .obj
+  | .any => none
+  | .choice _ => none
+def defaultFields : Fields → Option Slots
+  | .nil => some .nil
+  | .cons _ o n ty rest =>
+    match defaultFields rest with
+    | none => none
+    | some r =>
+      if o then some (.cons .absent r)
+      else if n then some (.cons .null r)
+      else (defaultOf ty).map fun d => .cons (.val d) r
+  | .consSkip _ ty _ rest =>
+    match defaultFields rest, defaultOf ty with
+    | some r, some d => some (.cons (.val d) r)
+    | _, _ => none
+end
 
 def fieldsOfDecl : List Nat → List (Mode × Ty) → Option Fields
   | [], [] => some .nil
@@ -559,7 +733,8 @@ def parseMode (s : String) : Option Mode :=
 
 mutual
 /-- a type of the declaration language:
-`u8 u16 u32 u64 bool nz8 any` · `oct <lo> <cap|->` · `utf8 <cap|->` · `arr <cap|-> <ty>` ·
+`u8 u16 u32 u64 bool nz8 any` · `i8 i16 i32 i64 nzi8 nzi16 nzi32 nzi64 f32 f64` · `bf8|bf16|bf32|bf64 <mask>` ·
+`fa <N> <ty>` · `oct <lo> <cap|->` · `utf8 <cap|->` · `arr <cap|-> <ty>` ·
 `st|ls <start> [ (<tagval|-> <r|o|n|x|s> <ty>)* ]` · `ue8|ue16 <start> [ (<enumval|->)* ]` ·
 `pe <start> [ (<enumval|-> <ty>)* ]` -/
 def parseTyF : Nat → List String → Option (Ty × List String)
@@ -570,6 +745,27 @@ def parseTyF : Nat → List String → Option (Ty × List String)
     else if tok = "u32" then some (tU32, rest) else if tok = "u64" then some (tU64, rest)
     else if tok = "bool" then some (.bool, rest) else if tok = "nz8" then some (.uint .w1 .nonzero, rest)
     else if tok = "any" then some (.any, rest)
+    else if tok = "i8" then some (tI8, rest) else if tok = "i16" then some (tI16, rest)
+    else if tok = "i32" then some (tI32, rest) else if tok = "i64" then some (tI64, rest)
+    else if tok = "nzi8" then some (.sint .w1 true, rest) else if tok = "nzi16" then some (.sint .w2 true, rest)
+    else if tok = "nzi32" then some (.sint .w4 true, rest) else if tok = "nzi64" then some (.sint .w8 true, rest)
+    else if tok = "f32" then some (.f32, rest) else if tok = "f64" then some (.f64, rest)
+    else if tok = "bf8" ∨ tok = "bf16" ∨ tok = "bf32" ∨ tok = "bf64" then
+      -- `bitflags_tlv!(Name, uN)`, the union of the declared flags
+      match rest with
+      | m :: r1 =>
+        m.toNat?.map fun mask =>
+          (.uint (if tok = "bf8" then .w1 else if tok = "bf16" then .w2 else if tok = "bf32" then .w4 else .w8)
+            (.mask mask), r1)
+      | _ => none
+    else if tok = "fa" then
+      -- `[T; N]`: `fa <N> <ty>`; `T: Default` is required by the Rust impl
+      match rest with
+      | n :: r1 =>
+        match n.toNat?, parseTyF f r1 with
+        | some k, some (el, r2) => (defaultOf el).map fun d => (.fixarr k el d, r2)
+        | _, _ => none
+      | _ => none
     else if tok = "oct" then
       match rest with
       | lo :: cap :: r1 =>
@@ -657,7 +853,8 @@ def parseDecl (toks : List String) : Option Ty :=
 
 /-! ## text form of values (line protocol)
 
-`-` absent, `n` null, a decimal number, `T`/`F`, `x<hex>` an octet / UTF-8 string, `{ slot … }` a
+`-` absent, `n` null, a decimal number (unsigned integer, flags, float bit pattern), `+<n>` / `-<n>` a signed
+integer (always with its sign), `T`/`F`, `x<hex>` an octet / UTF-8 string, `{ slot … }` a
 structure, `[ value … ]` an array. -/
 
 def hexDigit (n : Nat) : Char := if n < 10 then Char.ofNat (48 + n) else Char.ofNat (87 + n)
@@ -687,6 +884,7 @@ def valStr : Val → String
   | .raw v => "r:" ++ hexOf (encode v)
   | .empty => "_"
   | .variant i v => "( " ++ toString i ++ " " ++ valStr v ++ " )"
+  | .int i => if i < 0 then toString i else "+" ++ toString i
 def slotStr : Slot → String
   | .absent => "-"
   | .null => "n"
@@ -736,6 +934,14 @@ def parseSlotF : Nat → List String → Option (Slot × List String)
       match unhexL (tok.toList.drop 1) with
       | some b => some (.val (.bytes b), rest)
       | none => none
+    else if tok.startsWith "+" then
+      match (tok.drop 1).toNat? with
+      | some n => some (.val (.int (Int.ofNat n)), rest)
+      | none => none
+    else if tok.startsWith "-" then
+      match (tok.drop 1).toNat? with
+      | some n => some (.val (.int (-(Int.ofNat n))), rest)
+      | none => none
     else
       match tok.toNat? with
       | some n => some (.val (.num n), rest)
@@ -777,6 +983,11 @@ def parseVal (toks : List String) : Option Val :=
 def encodeText (ty : Ty) (args : List String) : Option Bytes := do
   let v ← parseVal args
   encodeStruct ty v
+
+/-- the real encoder (`encodeReal`) on a value in text form -/
+def encodeRealText (ty : Ty) (args : List String) : Option Bytes := do
+  let v ← parseVal args
+  encodeReal ty v
 
 def encodeNamed (name : String) (args : List String) : Option Bytes := do
   let ty ← named name
